@@ -331,10 +331,12 @@ func (x *Exec) entryState(cut *ssa.BasicBlock) *State {
 	st.brk = "|brk0|"
 	for _, p := range fn.Params {
 		st.env[p] = st.named(p.Type(), "p:"+p.Name())
+		st.assumeNonNil(st.env[p])
 	}
 	for _, fv := range fn.FreeVars {
 		st.env[fv] = st.named(fv.Type(), "fv:"+fv.Name())
 	}
+	x.assumeGlobalInv(st)
 	// captured variables are addresses of cells: never nil
 	for _, fv := range fn.FreeVars {
 		if v := st.env[fv]; v.K == VRef {
@@ -378,6 +380,13 @@ func (x *Exec) entryState(cut *ssa.BasicBlock) *State {
 		}
 		// branch conditions on the dominator chain whose edge dominates the header still hold
 		x.assumeDominatingGuards(st, cut)
+		x.assumeGlobalInv(st)
+		// go/ssa's range-over-slice index starts at -1 and only ever increments below len
+		for _, ins := range cut.Instrs {
+			if phi, ok := ins.(*ssa.Phi); ok && phi.Comment == "rangeindex" {
+				st.assume("(>= " + st.env[phi].T + " (- 1))")
+			}
+		}
 		// assume invariants
 		ord := fx.headers[cut]
 		if c := fx.contract; c != nil {
@@ -700,5 +709,24 @@ func (x *Exec) assumeDominatingGuards(st *State, hdr *ssa.BasicBlock) {
 				st.assume(not(c.T))
 			}
 		}()
+	}
+}
+
+// assumeGlobalInv assumes the package's declared invariants over init-only package variables
+// (each is justified by a table obligation over the initialiser, see tables.go).
+func (x *Exec) assumeGlobalInv(st *State) {
+	fn := x.fx.fn
+	if fn == nil {
+		return
+	}
+	pkg := ""
+	if fn.Pkg != nil {
+		pkg = fn.Pkg.Pkg.Path()
+	} else if o := fn.Origin(); o != nil && o.Pkg != nil {
+		pkg = o.Pkg.Pkg.Path()
+	}
+	for _, c := range x.eng.cs.GlobalInv[pkg] {
+		sc := x.specCtx(st, st.heap, st.old, map[string]Value{})
+		st.assume(sc.evalHyp(c.E))
 	}
 }
